@@ -5,7 +5,7 @@ namespace GoBatcher
 structure IWF (now lease : Nat) (x : LInst) : Prop where
   nodup : x.held.Nodup
   inRange : ∀ p, p ∈ x.held → p < x.parts
-  callOK : ∀ cl, x.call = some cl → cl.part < x.parts ∧ cl.part ∉ x.held ∧ cl.issuedAt ≤ now ∧ x.loopOn = true
+  callOK : ∀ cl, x.call = some cl → cl.part < x.parts ∧ cl.part ∉ x.held ∧ cl.issuedAt ≤ now
   partsMax : x.parts ≤ maxPartitions
   partsCfg : x.needProvision = false → x.parts = 0 ∨ x.parts = partitionCount x.gen x.shared x.factor
   /-- never renewed: every pending expiry is at most one lease duration away -/
@@ -42,8 +42,8 @@ theorem step_lwf (n : Nat) (s s' : LSt) (l : LLabel) (h : lstep n s l = some s')
     have w := hw i
     exact { w with
       callOK := fun cl hc => by
-        obtain ⟨a, b, c, d⟩ := w.callOK cl hc
-        exact ⟨a, b, Nat.le_trans c (Nat.le_add_right _ _), d⟩
+        obtain ⟨a, b, c⟩ := w.callOK cl hc
+        exact ⟨a, b, Nat.le_trans c (Nat.le_add_right _ _)⟩
       timerFresh := fun p c hm => by
         have := w.timerFresh p c hm
         simp only; omega }
@@ -145,10 +145,10 @@ theorem step_lwf (n : Nat) (s s' : LSt) (l : LLabel) (h : lstep n s l = some s')
       · intro cl hc
         simp only [Option.some.injEq] at hc
         subst hc
-        exact ⟨hg.1.2, hg.2, Nat.le_refl _, hg.1.1.1.1.1.1⟩
+        exact ⟨hg.1.2, hg.2, Nat.le_refl _⟩
       · intro hc
         have := (w.uninit hc).1
-        rw [hg.1.1.1.1.1.1] at this; cases this
+        rw [hg.1.1.1.1.1] at this; cases this
     · cases h
   | proc i grant =>
     simp only [LLabel.inst?] at h
@@ -179,7 +179,7 @@ theorem step_lwf (n : Nat) (s s' : LSt) (l : LLabel) (h : lstep n s l = some s')
       have w := hw i
       split at h
       · rename_i cl hcl
-        obtain ⟨c1, c2, c3, c4⟩ := w.callOK cl hcl
+        obtain ⟨c1, c2, c3⟩ := w.callOK cl hcl
         have hcn : ∀ (x' : LInst), x'.call = none → x'.held = (s.inst i).held → x'.parts = (s.inst i).parts →
             x'.needProvision = (s.inst i).needProvision → x'.gen = (s.inst i).gen → x'.shared = (s.inst i).shared →
             x'.factor = (s.inst i).factor → x'.timers = (s.inst i).timers → x'.loopOn = (s.inst i).loopOn →
@@ -238,8 +238,8 @@ theorem step_lwf (n : Nat) (s s' : LSt) (l : LLabel) (h : lstep n s l = some s')
       · intro q hq
         exact w.inRange q (List.mem_filter.mp hq).1
       · intro cl hc
-        obtain ⟨a, b, c', d⟩ := w.callOK cl hc
-        exact ⟨a, fun hm => b (List.mem_filter.mp hm).1, c', d⟩
+        obtain ⟨a, b, c'⟩ := w.callOK cl hc
+        exact ⟨a, fun hm => b (List.mem_filter.mp hm).1, c'⟩
       · intro q c' hm
         exact w.timerFresh q c' (List.mem_of_mem_erase hm)
       · intro hc
@@ -271,15 +271,14 @@ theorem step_lwf (n : Nat) (s s' : LSt) (l : LLabel) (h : lstep n s l = some s')
       cases h
       have w := hw i
       apply lwf_updI s s.store i _ hw
-      refine ⟨w.nodup, w.inRange, ?_, w.partsMax, w.partsCfg, w.timerFresh, ?_, w.shut, ?_, ?_⟩
-      · intro cl hc; simp at hc
+      refine ⟨w.nodup, w.inRange, w.callOK, w.partsMax, w.partsCfg, w.timerFresh, ?_, w.shut, ?_, ?_⟩
       · intro hc; simp at hc
       · intro hc
         have := w.stopped hc
         exact ⟨rfl, this.2⟩
       · intro hc
         obtain ⟨a, b, c', d, e⟩ := w.uninit hc
-        exact ⟨rfl, b, c', rfl, e⟩
+        exact ⟨rfl, b, c', d, e⟩
     · cases h
 
 theorem run_lwf (n : Nat) : ∀ (ls : List LLabel) (s s' : LSt), lrun n s ls = some s' → LWF s → LWF s' := by
